@@ -194,17 +194,20 @@ PROPS = {
         unreached=["CongressSample::sample_rate / format (ahash map, Instant)"],
     ),
     "C13": dict(
-        verus=[("slot", {})],
-        technique="Verus contracts on the real slot functions: make_slot, Slot::new, Slot::open, LazySlot::open, SlotGuard::delay_flush, SlotGuard's Drop::drop, Waiting::take_value, Slot::close (oneshot channel as effect witnesses)",
+        verus=[("slot", {"any_of": [{"slot_inv": "exclusive"}, {"slot_inv": "open"}]})],
+        technique="Verus contracts on the real slot functions: make_slot, Slot::new, Slot::open, LazySlot::open, SlotGuard::delay_flush, SlotGuard's Drop::drop, Waiting::take_value / wait_for_value, Slot::wait_for_data, Slot::close (oneshot channel as effect witnesses; representation invariant of Slot proved per operation)",
         level_text="Deductive proof (Verus/z3) of the sequential half of the slot protocol, for every slot state: a slot (and a lazy slot) hands out its guard the first time it is opened and None afterwards, with the chosen parent-drop mode; "
                    "dropping the guard sends the value as last mutated through it, closed, exactly once (the sender is consumed), leaves the guard Dropped, and still holds its flush guard when drop() returns (so in wait mode the "
-                   "parent's flush guard is released only after the value is on its way); delay_flush stores the flush guard; closing the parent never waits: it returns data already received, else only a value the channel has delivered. "
+                   "parent's flush guard is released only after the value is on its way); delay_flush stores the flush guard; closing the parent never waits: it returns data already received, else only a value the channel has delivered; wait_for_data stores the delivered value (what was stored stays), gives the receiver up, "
+                   "and so keeps the representation invariant close relies on (never both stored data and a receiver). "
                    "NOT decided: that a value sent before the close is the one try_recv delivers and the cross-thread order between the guard's send, the release of its flush guard and the parent's close (tokio oneshot, Drop glue, keep_alive.rs).",
         level_note="Trusted: Verus + z3; tokio's oneshot as a stand-in (send consumes the sender and is witnessed by `sent`, try_recv never blocks and returns only `delivered` values); std::mem::replace; Rust drops a struct's fields after its Drop::drop returns. "
-                   "Drop::drop and CloseValue::close are verified as inherent methods so that the type invariants (a live guard is Writable; a slot has data or a receiver) can be stated as preconditions.",
+                   "Drop::drop and CloseValue::close are verified as inherent methods so that the type invariants (a live guard is Writable; a slot has data or a receiver) can be stated as preconditions. The async fns wait_for_data / wait_for_value are verified as ordinary fns "
+                   "(rewrite RA: `rx.await` is a call returning the sent value or an error; `async` dropped): cancellation of the future between suspension points is not modelled. Slot's representation invariant is tried in two variants "
+                   "(`exclusive`: never data and receiver at once, proved for new/open/wait_for_data and assumed by close; `open`: no invariant, close verified for every state); the unit passes if all obligations hold under one of them.",
         explanation="slot open / guard drop / close, sequential contracts",
         assumptions=["tokio oneshot: a value sent before try_recv is delivered by it; a dropped sender closes the channel", "field drop order (flush guard released after Drop::drop)"],
-        unreached=["Slot::wait_for_data (async)", "keep_alive.rs Guard / DropAll / Parent (Arc + Mutex + closure protocol)", "cross-thread interleavings"],
+        unreached=["cancelling wait_for_data's future mid-way", "keep_alive.rs Guard / DropAll / Parent (Arc + Mutex + closure protocol)", "cross-thread interleavings"],
     ),
     "C14": dict(
         verus=[("emf_fresh", {}), ("emf_value", {}, ["write_metric_value"]), ("emf_finish", {})],
